@@ -186,7 +186,7 @@ impl ResolvedRoundingOptions {
 
         // 4. Let resolvedOptions be ? SnapshotOwnProperties(? GetOptionsObject(options), null).
         // 5. Let settings be ? GetDifferenceSettings(operation, resolvedOptions, DATE, « », "day", "day").
-        unit_group.validate_unit(options.largest_unit, None)?;
+        unit_group.validate_unit(options.largest_unit, Some(Unit::Auto))?;
         // 3. If disallowedUnits contains largestUnit, throw a RangeError exception.
         // 4. Let roundingIncrement be ? GetRoundingIncrementOption(options).
         let increment = options.increment.unwrap_or_default();
@@ -371,10 +371,11 @@ impl UnitGroup {
     }
 
     pub fn validate_unit(self, unit: Option<Unit>, extra_unit: Option<Unit>) -> TemporalResult<()> {
-        // TODO: Determine proper handling of Auto.
+        // `Unit::Auto` belongs to no unit group; it is only valid where the caller
+        // explicitly allows it through `extra_unit`.
         match self {
             UnitGroup::Date => match unit {
-                Some(unit) if !unit.is_time_unit() => Ok(()),
+                Some(unit) if unit.is_date_unit() => Ok(()),
                 None => Ok(()),
                 _ if unit == extra_unit => Ok(()),
                 _ => Err(TemporalError::range()
@@ -387,7 +388,11 @@ impl UnitGroup {
                 _ => Err(TemporalError::range()
                     .with_message("Unit was not part of the time unit group.")),
             },
-            UnitGroup::DateTime => Ok(()),
+            UnitGroup::DateTime => match unit {
+                Some(Unit::Auto) if unit != extra_unit => Err(TemporalError::range()
+                    .with_message("Unit was not part of the date-time unit group.")),
+                _ => Ok(()),
+            },
         }
     }
 }
